@@ -78,6 +78,10 @@ pub struct RunCfg {
     /// max_datagram_frame_size advertised by (client, server) when not the default 1200 / 1200
     #[serde(default)]
     pub dgram_max: Option<(u32, u32)>,
+    /// legal but extreme numeric transport parameters on both sides (values beyond 32 bits where
+    /// the RFC allows them): the field values the event builders are fed with
+    #[serde(default)]
+    pub extreme_params: bool,
 }
 
 #[derive(Debug, Clone, Copy, PartialEq, Eq, Serialize, Deserialize)]
@@ -95,7 +99,7 @@ pub struct CloseEvent {
 
 impl RunCfg {
     pub fn new(workload: Workload) -> RunCfg {
-        RunCfg { workload, tiny_windows: false, idle_timeout_ms: 20_000, idle_timeout_server_ms: None, max_segments: 4, qlog: QlogMode::None, horizon_s: 120, close: None, untrusted_ca: false, dgram_max: None }
+        RunCfg { workload, tiny_windows: false, idle_timeout_ms: 20_000, idle_timeout_server_ms: None, max_segments: 4, qlog: QlogMode::None, horizon_s: 120, close: None, untrusted_ca: false, dgram_max: None, extreme_params: false }
     }
 }
 
@@ -226,6 +230,18 @@ fn tune<R: dquic::qbase::role::IntoRole + Default>(p: &mut dquic::qbase::param::
     }
     p.set(ParameterId::MaxIdleTimeout, Duration::from_millis(cfg.idle_timeout_ms)).expect("idle");
     p.set(ParameterId::MaxDatagramFrameSize, 1200u32).expect("dgram");
+    if cfg.extreme_params {
+        use dquic::qbase::varint::VarInt;
+        let big = |v: u64| VarInt::from_u64(v).expect("varint");
+        p.set(ParameterId::ActiveConnectionIdLimit, big(1 << 32)).expect("param");
+        p.set(ParameterId::InitialMaxData, big((1 << 62) - 1)).expect("param");
+        p.set(ParameterId::InitialMaxStreamDataBidiLocal, big((1 << 62) - 1)).expect("param");
+        p.set(ParameterId::InitialMaxStreamDataBidiRemote, big(1 << 40)).expect("param");
+        p.set(ParameterId::InitialMaxStreamDataUni, big(1 << 33)).expect("param");
+        p.set(ParameterId::InitialMaxStreamsBidi, big((1 << 60) - 1)).expect("param");
+        p.set(ParameterId::InitialMaxStreamsUni, big(1 << 32)).expect("param");
+        p.set(ParameterId::MaxUdpPayloadSize, big(65527)).expect("param");
+    }
 }
 
 fn pattern(tag: u8, n: usize) -> Vec<u8> {
